@@ -16,7 +16,7 @@ LEVEL_NOTE = ('Trusted: Cython-subset front-end, interpreter, our transcription 
               'real algebra. x**alpha is exp(alpha log x). Not decided: ulp-level accuracy, overflow thresholds.')
 EXPLANATION = ('R07.1 modulus * J_ref == 1 on the main branch, 7 models; R07.2 legacy compliance == J_ref under compliance = 1/mu, Voigt offset = 1/scale; R07.3 guard returns == limits (rational models), '
                'Maxwell-family guards agree; R07.4 Re J >= 1/mu and Im J <= 0 from the form of J_ref; R07.5 access paths, no writes to self in _implementation, exhaustive find_rheology.')
-EXPLANATION += ' R07.7 the array twin: every interpreted call repeated with array arguments (mutable cells) returns the scalar values element for element and leaves the arguments intact.'
+EXPLANATION += ' R07.10 compliance_dict_helper applies the compliance function to every frequency with all live and constant parameters in order. R07.7 the array twin: every interpreted call repeated with array arguments (mutable cells) returns the scalar values element for element and leaves the arguments intact.'
 EXPLANATION += ' R07.8 every float_eps guard of a legacy compliance function is evaluated at the corners of the stated parameter range (omega 1e-12..1e2, mu 1e3..1e13, eta 1..1e30): a guard taken inside the range must leave the value equal to the published law; the failing corner is the witness.'
 
 MODELS = ('Elastic', 'Newton', 'Maxwell', 'Voigt', 'Burgers', 'Andrade', 'SundbergCooper')
@@ -228,6 +228,27 @@ def run(chk):
                key=f'R07.8|{cname}', method='constant extraction')
     f = need_func(ml, 'off')
     eq('R07.2', 'legacy off == elastic compliance', it2.call(ml, f, [w, comp, eta]), 1 / mu, ml.where(f))
+
+    # ---------------- R07.10 the legacy helper that evaluates a compliance function for every tidal frequency (used by the ComplexCompliance holder and by quick_tides)
+    mcc = repo.by_path('TidalPy/rheology/complex_compliance/complex_compliance.py')
+    fh_ = mcc.defs.get('compliance_dict_helper')
+    if isinstance(fh_, ast.FunctionDef):
+        freqs = {(1, 0): X.atom('w_a', 'pos'), (2, 1): X.atom('w_b', 'pos'), (0, 3): X.atom('w_c', 'pos')}
+        live = (X.atom('live_compliance', 'pos'), X.atom('live_viscosity', 'pos')); consts = (X.atom('const_1', 'pos'), X.atom('const_2', 'pos'))
+        law = (lambda *a_, **k_: X.fn('LAW', *[X.lift(v_) for v_ in a_]))          # an uninterpreted function of exactly the arguments it is handed, in their order
+        for inputs_, tag in ((consts, 'two constant parameters'), ((), 'no constant parameters')):
+            got = Interp(repo).call(mcc, fh_, [dict(freqs), law, live, inputs_])
+            bad = []
+            if not isinstance(got, dict) or set(got) != set(freqs):
+                bad.append(f'keys {sorted(got) if isinstance(got, dict) else got!r}')
+            else:
+                for sig, fq in freqs.items():
+                    if X.lift(got[sig]) is not X.fn('LAW', fq, *live, *inputs_):
+                        bad.append(f'{sig}: {X.show(X.lift(got[sig]))[:70]}')
+            chk.ob('R07.10', f'compliance_dict_helper: every frequency signature maps to compliance_func(frequency, *live_inputs, *inputs) ({tag})', not bad, '; '.join(bad[:3]), mcc.where(fh_),
+                   key=f'R07.10|{tag}', method='interpretation with the compliance function uninterpreted')
+    else:
+        raise AnalysisError('compliance_dict_helper vanished')
 
     # ---------------- R07.4 sign structure of the published compliances (derived facts)
     cosap = X.fn('cos', al * pi / 2); sinap = X.fn('sin', al * pi / 2)
